@@ -2,6 +2,7 @@
 From JamV Require Import Base.Bytes Model.Shuffle Model.ShuffleFast Proofs.ShuffleP.
 From Coq Require Import ZifyBool ZifyNat ZifyN FMapPositive.
 Local Open Scope N_scope.
+Ltac Zify.zify_post_hook ::= Z.div_mod_to_equations.
 
 Lemma key_inj a b : key a = key b -> a = b.
 Proof.
@@ -122,8 +123,47 @@ End FastP.
 Section HashedFastP.
   Variable H : bytes -> bytes.
 
+  Lemma map_seq_offset {B} (f : nat -> B) a n : map f (seq a n) = map (fun i => f (a + i)%nat) (seq 0 n).
+  Proof.
+    revert f a. induction n as [|n IH]; intros f a; [reflexivity|].
+    cbn [seq map]. rewrite Nat.add_0_r. f_equal. rewrite (IH f (S a)), (IH (fun i => f (a + i)%nat) 1%nat).
+    apply map_ext. intros i. f_equal. lia.
+  Qed.
+
+  Lemma qword_in_block h b j : (j < 8)%nat ->
+    qword H h (8 * b + N.of_nat j) = le_dec (firstn 4 (skipn (4 * j) (H (h ++ le_enc 4 b)))).
+  Proof.
+    intros Hj. unfold qword.
+    assert (E1 : (8 * b + N.of_nat j) / 8 = b) by lia.
+    assert (E2 : N.to_nat ((4 * (8 * b + N.of_nat j)) mod 32) = (4 * j)%nat) by lia.
+    rewrite E1, E2. reflexivity.
+  Qed.
+
+  Lemma blocks_spec h k : forall b,
+    blocks H h b k = map (fun i => qword H h (8 * b + N.of_nat i)) (seq 0 (8 * k)).
+  Proof.
+    induction k as [|k IH]; intros b; [reflexivity|].
+    cbn [blocks]. replace (8 * S k)%nat with (8 + 8 * k)%nat by lia.
+    rewrite seq_app, map_app. f_equal.
+    - unfold block_words. apply map_ext_in. intros j Hj. apply in_seq in Hj.
+      symmetry. apply qword_in_block. lia.
+    - rewrite IH. rewrite (map_seq_offset _ (0 + 8)%nat). apply map_ext. intros i. f_equal. lia.
+  Qed.
+
+  Lemma qseq_fast_is_qseq h l : qseq_fast H h l = qseq H h l.
+  Proof.
+    unfold qseq_fast, qseq. rewrite blocks_spec, firstn_map.
+    assert (Hle : (l <= 8 * Nat.div (l + 7) 8)%nat).
+    { pose proof (Nat.div_mod (l + 7) 8 ltac:(lia)) as Hd.
+      pose proof (Nat.mod_upper_bound (l + 7) 8 ltac:(lia)). lia. }
+    set (n := (8 * Nat.div (l + 7) 8)%nat) in *. clearbody n.
+    replace n with (l + (n - l))%nat by lia. rewrite seq_app.
+    rewrite firstn_exact by apply seq_length.
+    apply map_ext. intros i. f_equal.
+  Qed.
+
   Lemma shuffle_fast_is_F {A} (s : list A) h : shuffle_fast H s h = shuffle_F H s h.
-  Proof. apply F_fast_is_F. Qed.
+  Proof. unfold shuffle_fast. rewrite qseq_fast_is_qseq. apply F_fast_is_F. Qed.
 
   Lemma assign_slots_spec p e ts : assign_slots H p e ts = map (assign H p e) ts.
   Proof. unfold assign_slots, assign. rewrite shuffle_fast_is_F. reflexivity. Qed.
